@@ -94,6 +94,8 @@ def table : List Entry := [
   ⟨"dkg.getAndProcessResponses|deref|dkg.ProcessResponse(resp)", "after:dkg == nil", .flag "respsDkgNil"⟩,
   ⟨"dkg.getAndProcessResponses|typeassert|r.(*Response)", "ok", .flag "respsCast"⟩,
   ⟨"dkg.handlePeerMsg|close|close(sessionReq[sessionID].reply)", "", .model "sessStep: a reply channel is closed when its entry is deleted, never twice (sess_total)"⟩,
+  ⟨"dkg.handlePeerMsg|deref|r.Response.Index", "in:ok && r.Response != nil", .flag "peerRespNil"⟩,
+  ⟨"dkg.handlePeerMsg|deref|respFromPeer.Response.Index", "in:respFromPeer.Response != nil", .flag "peerRespNil"⟩,
   ⟨"dkg.handlePeerMsg|mapwrite|sessionMap[sessionID]", "", .safe "maps made in Loop"⟩,
   ⟨"dkg.handlePeerMsg|mapzero|sessionMap[sessionID]", "", .safe "a missing entry is a nil slice: ranging over it and len are fine"⟩,
   ⟨"dkg.handlePeerMsg|mapzero|sessionMap[sessionID]#2", "", .safe "a missing entry is a nil slice: ranging over it and len are fine"⟩,
@@ -103,6 +105,7 @@ def table : List Entry := [
   ⟨"dkg.handlePeerMsg|mapzero|sessionReq[sessionID].reply#2", "in:len(sessionMap[sessionID]) == sessionReq[sessionID].numOfResps", .model "same branch as .ctx"⟩,
   ⟨"dkg.handlePeerMsg|typeassert|dd.(*Deal)", "ok", .safe "comma-ok"⟩,
   ⟨"dkg.handlePeerMsg|typeassert|p.(*PublicKey)", "ok", .safe "comma-ok"⟩,
+  ⟨"dkg.handlePeerMsg|typeassert|rr.(*Response)", "ok", .safe "comma-ok"⟩,
   ⟨"dkg.handleRequest|close|close(req.reply)", "", .model "sessStep: fresh channel of this request, closed once (sess_total)"⟩,
   ⟨"dkg.handleRequest|mapwrite|sessionReq[req.sessionID]", "", .safe "maps made in Loop"⟩,
   ⟨"dkg.handleRequest|mapzero|sessionReq[req.sessionID].ctx", "", .safe "entry written by the first statement of the function"⟩,
@@ -203,11 +206,12 @@ def table : List Entry := [
   ⟨"share.PubPoly.Add|make|make([]kyber.Point, p.Threshold())", "after:p.g.String() != q.g.String(); after:p.Threshold() != q.Threshold()", .safe "a length"⟩,
   ⟨"share.PubPoly.Commit|index|p.commits[0]", "", .safe "the group polynomial sums the QUAL deals, which include the own deal with t ≥ 2 commitments; PubPoly.Add rejects different lengths"⟩,
   ⟨"share.PubPoly.Eval|index|p.commits[j]", "for:j >= 0", .safe "index bounded by the enclosing loop condition / range"⟩,
-  ⟨"share.RecoverCommit|callpanics|num.Div(num, den)", "", .flag "recoverDedup"⟩,
+  ⟨"share.RecoverCommit|callpanics|num.Div(num, den)", "", .cross "tbls.Recover" "dup || i >= n" "recoverDedup"⟩,
   ⟨"share.RecoverCommit|ifacenil|shares[i].V", "", .safe "entries with V == nil are not put into x"⟩,
   ⟨"share.RecoverCommit|index|shares[i]", "", .safe "i ranges over keys of x, which are positions of shares"⟩,
   ⟨"share.RecoverCommit|mapwrite|x[i]", "", .safe "map created by make in the same function or in the constructor"⟩,
   ⟨"tbls.Recover|ifacenil|public.Eval(i).V", "", .safe "Eval always returns a point"⟩,
+  ⟨"tbls.Recover|mapwrite|seen[i]", "", .safe "map created by make in the same function or in the constructor"⟩,
   ⟨"tbls.SigShare.Value|deref|*s", "", .safe "receiver is the address of a local"⟩,
   ⟨"tbls.SigShare.Value|slice|[]byte(*s)[2:]", "", .cross "tbls.Recover" "err != nil" "sigIdxLen"⟩,
   ⟨"tbls.sliceUniqMap|index|s[j]", "", .safe "j ≤ position of v in s"⟩,
@@ -270,7 +274,7 @@ def Cfg.current : Cfg :=
   { xpubCastSelf := flagOn "xpubCastSelf", xpubCastPeer := flagOn "xpubCastPeer", gdkgGuard := flagOn "gdkgGuard",
     dealsDkgNil := flagOn "dealsDkgNil", dealsCast := flagOn "dealsCast", respsDkgNil := flagOn "respsDkgNil",
     respsCast := flagOn "respsCast", findPubDkg := flagOn "findPubDkg", respNil := flagOn "respNil",
-    respVerOk := flagOn "respVerOk", pubKeyLen := flagOn "pubKeyLen", encNil := flagOn "encNil",
+    respVerOk := flagOn "respVerOk", pubKeyLen := flagOn "pubKeyLen", peerRespNil := flagOn "peerRespNil", encNil := flagOn "encNil",
     nonceLen := flagOn "nonceLen", secShareNil := flagOn "secShareNil", shareVNil := flagOn "shareVNil",
     findPubVss := flagOn "findPubVss", aggNil := flagOn "aggNil", toBigLen := flagOn "toBigLen",
     qloopOk := flagOn "qloopOk", qloopCast := flagOn "qloopCast", rsNil := flagOn "rsNil", rsMake := flagOn "rsMake",
